@@ -42,6 +42,9 @@ type Engine struct {
 	cgScanned map[*ssa.Package]bool
 	ghost     *Ghost
 	blNames   map[string]*fnNames
+	fnIDs     map[*ssa.Function]int
+	addrTaken []*ssa.Function
+	candCache map[string][]*ssa.Function
 }
 
 type nameT struct {
